@@ -237,6 +237,18 @@ func createCompiledRouteHandler(route *ast.Route, bytecode []byte, wsHub *websoc
 			vmInstance.SetLocal("input", vm.NullValue{})
 		}
 
+		// Inject 'auth' for routes that declare auth. The compiler resolves the
+		// name for such routes (DefineBuiltin), but nothing bound it here: a
+		// compiled route reading auth.user.id answered 500 where the
+		// interpreted route answers. Same data as the interpreter path.
+		if route.Auth != nil {
+			authData := extractDevAuthData(ctx.Request.Header.Get("Authorization"))
+			if authData == nil {
+				authData = interpreter.AnonymousAuthData()
+			}
+			vmInstance.SetLocal("auth", interfaceToValue(authData))
+		}
+
 		// Inject request headers as 'headers' object. Keys use Go's
 		// canonical format (e.g. "Content-Type"). First value only.
 		headerObj := make(map[string]vm.Value, len(ctx.Request.Header))
